@@ -14,7 +14,7 @@
 
 use lexical_util::algorithm::{copy_to_dst, ltrim_char_count, rtrim_char_count};
 use lexical_util::constants::{FormattedSize, BUFFER_SIZE};
-use lexical_util::digit::{char_to_digit_const, digit_to_char_const};
+use lexical_util::digit::{char_to_digit_const, char_to_valid_digit_const, digit_to_char_const};
 use lexical_util::format::NumberFormat;
 use lexical_util::num::Float;
 use lexical_write_integer::write::WriteInteger;
@@ -431,7 +431,9 @@ pub fn truncate_and_round(
     } else if rem == 0 {
         // Even radix, our halfway point `$c00000.....`.
         let truncated = &buffer[start + max_digits + 1..end];
-        if truncated.iter().all(|&x| x == b'0') && last & 1 == 0 {
+        // NOTE: The parity is that of the digit, not of its ASCII character.
+        let is_even = char_to_valid_digit_const(last, radix) & 1 == 0;
+        if truncated.iter().all(|&x| x == b'0') && is_even {
             // At an exact halfway point, and even, round-down.
             (max_digits, false)
         } else {
